@@ -182,8 +182,8 @@ GRowsQuick == { <<3, 1>>, <<3, 2>>, <<3, 3>>, <<2, 4>> }
 GWide  == { <<9, 1>>, <<17, 1>>, <<20, 2>>, <<80, 1>>, <<132, 1>>, <<140, 1>> }
 GColm  == { <<132, 1>>, <<133, 1>>, <<200, 2>> }    \* at and beyond the DECCOLM width
 GLong  == { <<300, 1>>, <<1, 300>> }
-GAllW  == { <<w, 1>> : w \in 1..140 }
-GAllWQuick == { <<w, 1>> : w \in {1, 2, 7, 8, 9, 10, 15, 16, 17, 24, 25, 33, 40, 64, 65, 80, 81, 100, 132, 133, 139, 140} }
+GAllW  == { <<w, 1>> : w \in (1..140) \cup {255, 256, 257, 264, 265, 300} }
+GAllWQuick == { <<w, 1>> : w \in {1, 2, 7, 8, 9, 10, 15, 16, 17, 24, 25, 33, 40, 64, 65, 80, 81, 100, 132, 133, 139, 140, 256, 257, 265} }
 GWideQuick == { <<9, 1>>, <<20, 1>>, <<80, 1>> }
 GCols  == { <<1, 2>>, <<2, 2>>, <<3, 2>>, <<4, 2>>, <<5, 2>>, <<6, 2>> }
 
